@@ -743,6 +743,8 @@ def propC14 (c : Case) : PropRes :=
           | none => { ok := false, sig := "C14:success-without-transaction", note := r.task }
       else if rs.err = "reference-conflict" then
         if refs.contains r.reference then { tags := ["ref-conflict"] } else { ok := false, sig := "C14:conflict-without-holder", note := r.task }
+      else if rs.err = "other" && refs.contains r.reference then
+        { ok := false, sig := "C14:reference-conflict-answered-as-unclassified-error", note := s!"{r.task}: reference {r.reference} is held by a committed transaction, the request answered an internal error" }
       else { tags := [s!"ref-other-{rs.err}"] }))))
 
 /-- C15 (schedule part) on the real output -/
